@@ -49,7 +49,7 @@ int main(int argc, char **argv)
              "every sequence of <= %d operations over %d write operations (begin/end object/array, booleans, integers at every width boundary, double, "
              "string_with_len 0/1/127/128/300, write_string, write_name, bytes 0/1/128, write_raw 0/2, parser_to_writer)%s x EVERY capacity from 0 to encoded size + 1; "
              "destination = heap block of exactly 'capacity' bytes pre-filled with 0xA5, under ASan",
-             CF.K, CF.nalpha, (CF.with_noenc || CF3.K) ? ", plus each of 4 calls that have no encoding (length > INT32_MAX, SIZE_MAX, NULL sources) inserted at every position of every sequence of <= 3 operations" : "");
+             CF.K, CF.nalpha, (CF.with_noenc || CF3.K) ? ", plus each of 6 calls that have no encoding (length > INT32_MAX, SIZE_MAX, NULL sources, raw lengths that wrap the counter) inserted at every position of every sequence of <= 3 operations" : "");
     if (CF2.K) snprintf(bound + strlen(bound), sizeof bound - strlen(bound), "; additionally every sequence of <= %d operations over a 16-operation sub-alphabet x every capacity", CF2.K);
     static const char *const assumptions[] = {
         "pieces are the units the writer stores atomically: a one-byte token, an integer/double token, a length descriptor, a payload",
